@@ -2,7 +2,7 @@
    In the model each loop carries a fuel equal to the number of bytes left in the stream plus one and answers EOutOfFuel
    when it is used up.  [fueled r] says r is not that answer: the loop ended on its own within (bytes left + 1) passes,
    whatever line numbers, counts or names the text contains.  Statements only; proofs in Proofs_Fuel.v. *)
-From PatchV Require Import Base Lines Hunk LineParser Parser Proofs_Fuel.
+From PatchV Require Import Base Lines Hunk Options LineParser Parser World Driver Proofs_Fuel Proofs_Progress.
 
 (* reading a line consumes at least one byte *)
 Theorem sget_line_some : forall s x s', sget_line s = (Some x, s') -> length (rest s') < length (rest s).
@@ -41,6 +41,37 @@ Print Assumptions parse_quoted_string_fueled.
 Theorem parse_patch_header_fueled : forall p strip s, fueled (parse_patch_header_full p strip s).
 Proof. exact Proofs_Fuel.parse_patch_header_fueled. Qed.
 Print Assumptions parse_patch_header_fueled.
+
+(* a body parser that succeeds on a stream with something left to read has consumed at least one line *)
+Theorem body_progress : forall p s p' s',
+  parse_patch_body p s = Ok (p', s') -> seof s = false -> sbad s = false -> rest s <> [] ->
+  length (rest s') < length (rest s).
+Proof. exact Proofs_Progress.body_progress. Qed.
+Print Assumptions body_progress.
+
+(* what the header scan hands to the loop over sections: never more input than it got; when a hunk start was found, either
+   strictly less input, or the hunk is on the very first line, the body is still to be parsed and the patch is not binary *)
+Theorem header_full_spec : forall f strip s should p s1 found,
+  parse_patch_header_full (empty_patch f) strip s = Ok (should, p, s1, found) ->
+  length (rest s1) <= length (rest s) /\
+  (found = false -> should = true) /\
+  (found = true -> length (rest s1) < length (rest s) \/ (should = true /\ poper p <> OpBinary /\ s1 = mkStream (rest s) false false)) /\
+  (found = true -> should = false -> length (rest s1) < length (rest s)) /\
+  (found = true -> poper p = OpBinary -> length (rest s1) < length (rest s)).
+Proof. exact Proofs_Progress.header_full_spec. Qed.
+Print Assumptions header_full_spec.
+
+(* each pass of the loop over the sections ends the loop or goes on with strictly less input: with "bytes + 2" passes
+   allowed the loop is never cut short (Never m: m does not answer EOutOfFuel, in any world) *)
+Theorem section_loop_fueled : forall o f fuel st s first,
+  length (rest s) + 1 < fuel -> Never (section_loop fuel o f st s first).
+Proof. exact Proofs_Progress.section_loop_fueled. Qed.
+Print Assumptions section_loop_fueled.
+
+(* the whole run, for every option record, patch text and tree *)
+Theorem process_patch_fueled : forall o bytes, Never (process_patch o bytes).
+Proof. exact Proofs_Progress.process_patch_fueled. Qed.
+Print Assumptions process_patch_fueled.
 
 Local Open Scope string_scope.
 (* the input that used to take 2^63 iterations in the implementation: the model answers (a rejected hunk), not EOutOfFuel *)
